@@ -118,14 +118,14 @@ func NewSliceVarFetcher(cc *Config, vals map[string]interface{}) SliceVarFetcher
 }
 
 func (s SliceVarFetcher) Get(key VariableKey, _ string) (Value, error) {
-	if int(key) >= len(s) {
+	if key < 0 || int(key) >= len(s) {
 		return nil, fmt.Errorf("variableKey not exist %d", key)
 	}
 	return s[key], nil
 }
 
 func (s SliceVarFetcher) Set(key VariableKey, _ string, val Value) error {
-	if int(key) >= len(s) {
+	if key < 0 || int(key) >= len(s) {
 		return fmt.Errorf("variableKey not exist %d", key)
 	}
 	s[key] = val
@@ -133,7 +133,7 @@ func (s SliceVarFetcher) Set(key VariableKey, _ string, val Value) error {
 }
 
 func (s SliceVarFetcher) Cached(key VariableKey, _ string) bool {
-	if int(key) >= len(s) {
+	if key < 0 || int(key) >= len(s) {
 		return false
 	}
 	return true
